@@ -351,7 +351,7 @@ package bits
 //@   ensures[C13] r.err == nil ==> result == ((old(r.value) << uint(8*nrBytes(old(r.n), n))) | rdBytes(ghost(r.rd).rdata, old(ghost(r.rd).rpos), nrBytes(old(r.n), n))) >> uint(r.n)
 //@   ensures[C13] r.err == nil ==> r.value == ((old(r.value) << uint(8*nrBytes(old(r.n), n))) | rdBytes(ghost(r.rd).rdata, old(ghost(r.rd).rpos), nrBytes(old(r.n), n))) & mask(r.n)
 //@   loop 1 invariant r != nil && r.err == nil && r.rd == old(r.rd) && r.rd != nil && 0 <= old(r.n) && old(r.n) < 8 && old(r.value) == old(r.value) & mask(old(r.n))
-//@   loop 1 invariant old(r.n) <= r.n && r.n < n+8 && (r.n-old(r.n))%8 == 0 && (r.n-old(r.n))/8 <= 4
+//@   loop 1 invariant old(r.n) <= r.n && (r.n < n+8 || r.n == old(r.n)) && (r.n-old(r.n))%8 == 0 && (r.n-old(r.n))/8 <= 4
 //@   loop 1 invariant ghost(r.rd).rlen == old(ghost(r.rd).rlen) && ghost(r.rd).rdata == old(ghost(r.rd).rdata) && ghost(r.rd).rlen <= 1<<48
 //@   loop 1 invariant ghost(r.rd).rpos == old(ghost(r.rd).rpos) + (r.n-old(r.n))/8 && r.pos+1 == ghost(r.rd).rpos && 0 <= old(ghost(r.rd).rpos) && ghost(r.rd).rpos <= ghost(r.rd).rlen
 //@   loop 1 invariant r.value == (old(r.value) << uint(r.n-old(r.n))) | rdBytes(ghost(r.rd).rdata, old(ghost(r.rd).rpos), (r.n-old(r.n))/8)
@@ -506,12 +506,12 @@ package bits
 //@   assigns nothing
 
 //@ func (*EBSPReader).Read
-//@   requires r != nil && (r.err == nil ==> erInv0(r)) && 0 <= n && n <= 1<<52
+//@   requires r != nil && (r.err == nil ==> erInv0(r)) && n <= 1<<52
 //@   ensures old(r.err) != nil ==> r.err != nil && result == 0
 //@   ensures r.rd == old(r.rd) && ghost(r.rd).rlen == old(ghost(r.rd).rlen) && ghost(r.rd).rdata == old(ghost(r.rd).rdata)
 //@   ensures old(r.err) == nil ==> ghost(r.rd).rpos >= old(ghost(r.rd).rpos) && ghost(r.rd).rpos <= ghost(r.rd).rlen
-//@   ensures old(r.err) == nil && (r.err == nil || n <= 8) ==> erInv0(r)
-//@   ensures r.err == nil && old(erInvW(r)) ==> erInv(r)
+//@   ensures old(r.err) == nil && n >= 0 && (r.err == nil || n <= 8) ==> erInv0(r)
+//@   ensures r.err == nil && n >= 0 && old(erInvW(r)) ==> erInv(r)
 //@   ensures r.err != nil ==> result == 0
 //@   ensures r.err == nil ==> (old(r.n) >= n && r.n == old(r.n) - n && ghost(r.rd).rpos == old(ghost(r.rd).rpos)) || (old(r.n) < n && r.n < 8 && ghost(r.rd).rpos > old(ghost(r.rd).rpos))
 //@   ensures[C13] r.err == nil && n <= 32 && old(erInv(r)) ==> ghost(r.rd).rplen == old(ghost(r.rd).rplen) + nrBytes(old(r.n), n) && r.n == old(r.n) + 8*nrBytes(old(r.n), n) - n
@@ -519,7 +519,7 @@ package bits
 //@   ensures[C13] r.err == nil && n <= 32 && old(erInv(r)) ==> r.v == ((old(r.v) << uint(8*nrBytes(old(r.n), n))) | rdBytes(ghost(r.rd).rpay, old(ghost(r.rd).rplen), nrBytes(old(r.n), n))) & mask(r.n)
 //@   ensures[C13] old(r.err) == nil && old(erInvW(r)) ==> forall i int :: 0 <= i && i < old(ghost(r.rd).rplen) ==> ghost(r.rd).rpay[i] == old(ghost(r.rd).rpay[i])
 //@   loop 1 invariant r != nil && r.err == nil && r.rd == old(r.rd) && r.rd != nil && 0 <= old(r.n) && old(r.n) < 8
-//@   loop 1 invariant old(r.n) <= r.n && r.n < n+8 && (r.n-old(r.n))%8 == 0
+//@   loop 1 invariant old(r.n) <= r.n && (r.n < n+8 || r.n == old(r.n)) && (r.n-old(r.n))%8 == 0
 //@   loop 1 invariant ghost(r.rd).rlen == old(ghost(r.rd).rlen) && ghost(r.rd).rdata == old(ghost(r.rd).rdata) && ghost(r.rd).rlen <= 1<<48
 //@   loop 1 invariant (r.n == old(r.n) && ghost(r.rd).rpos == old(ghost(r.rd).rpos)) || (r.n > old(r.n) && ghost(r.rd).rpos > old(ghost(r.rd).rpos))
 //@   loop 1 invariant old(ghost(r.rd).rpos) <= ghost(r.rd).rpos && 0 <= old(ghost(r.rd).rpos) && ghost(r.rd).rpos <= ghost(r.rd).rlen
@@ -535,6 +535,7 @@ package bits
 //@   ensures r.rd == old(r.rd) && erOK(r) && (old(r.err) != nil ==> r.err != nil && result == false)
 //@   ensures r.err == nil && old(erInvW(r)) ==> erInv(r)
 //@   ensures r.err == nil ==> (old(r.n) >= 1 && r.n == old(r.n) - 1 && ghost(r.rd).rpos == old(ghost(r.rd).rpos)) || (old(r.n) < 1 && r.n < 8 && ghost(r.rd).rpos > old(ghost(r.rd).rpos))
+//@   ensures old(r.err) == nil && r.err == nil ==> ghost(r.rd).rpos > old(ghost(r.rd).rpos) || (ghost(r.rd).rpos == old(ghost(r.rd).rpos) && r.n < old(r.n))
 //@   ensures old(r.err) == nil ==> ghost(r.rd).rpos >= old(ghost(r.rd).rpos) && ghost(r.rd).rlen == old(ghost(r.rd).rlen)
 
 //@ func (*EBSPReader).ReadBytes
@@ -553,7 +554,7 @@ package bits
 //@   ensures r.err == nil && old(erInvW(r)) ==> erInvW(r)
 //@   ensures r.err == nil && old(erInv(r)) ==> erInv(r)
 //@   ensures old(r.err) == nil ==> ghost(r.rd).rpos >= old(ghost(r.rd).rpos) && ghost(r.rd).rlen == old(ghost(r.rd).rlen)
-//@   ensures old(r.err) == nil && r.err == nil ==> ghost(r.rd).rpos > old(ghost(r.rd).rpos) || r.n < old(r.n)
+//@   ensures old(r.err) == nil && r.err == nil ==> ghost(r.rd).rpos > old(ghost(r.rd).rpos) || (ghost(r.rd).rpos == old(ghost(r.rd).rpos) && r.n < old(r.n))
 //@   loop 1 invariant r != nil && r.rd == old(r.rd) && r.err == nil && erInv0(r) && old(erInv0(r)) && ghost(r.rd).rlen == old(ghost(r.rd).rlen) && ghost(r.rd).rpos >= old(ghost(r.rd).rpos) && (old(erInvW(r)) ==> erInvW(r)) && (old(erInv(r)) ==> erInv(r))
 //@   loop 1 invariant 0 <= leadingZeroBits && leadingZeroBits <= 8*(ghost(r.rd).rpos - old(ghost(r.rd).rpos)) + old(r.n) - r.n
 //@   loop 1 decreases ghost(r.rd).rlen - ghost(r.rd).rpos, r.n
@@ -564,7 +565,7 @@ package bits
 //@   ensures r.err == nil && old(erInvW(r)) ==> erInvW(r)
 //@   ensures r.err == nil && old(erInv(r)) ==> erInv(r)
 //@   ensures old(r.err) == nil ==> ghost(r.rd).rpos >= old(ghost(r.rd).rpos) && ghost(r.rd).rlen == old(ghost(r.rd).rlen)
-//@   ensures old(r.err) == nil && r.err == nil ==> ghost(r.rd).rpos > old(ghost(r.rd).rpos) || r.n < old(r.n)
+//@   ensures old(r.err) == nil && r.err == nil ==> ghost(r.rd).rpos > old(ghost(r.rd).rpos) || (ghost(r.rd).rpos == old(ghost(r.rd).rpos) && r.n < old(r.n))
 
 //@ func (*EBSPReader).SetError
 //@   requires r != nil
